@@ -33,12 +33,19 @@ type BoardSender = std::sync::mpsc::Sender<BoardState>;
     find a "quite" position
 */
 fn quiesce(
+    start: Instant,
+    time_to_move_ms: u128,
     board: &BoardState,
     mut alpha: i32,
     beta: i32,
     search_info: &mut Search,
     zobrist_hasher: &ZobristHasher,
 ) -> i32 {
+    // we are out of time, exit the search
+    if out_of_time(start, time_to_move_ms) {
+        return NEG_INF;
+    }
+
     search_info.node_searched();
     let stand_pat = get_evaluation(board);
     if stand_pat >= beta {
@@ -53,7 +60,15 @@ fn quiesce(
     #[cfg(walleye_verif)]
     crate::utils::verif::log_order(&moves);
     for mov in moves {
-        let score = -quiesce(&mov, -beta, -alpha, search_info, zobrist_hasher);
+        let score = -quiesce(
+            start,
+            time_to_move_ms,
+            &mov,
+            -beta,
+            -alpha,
+            search_info,
+            zobrist_hasher,
+        );
         if score >= beta {
             return beta;
         }
@@ -102,7 +117,15 @@ fn alpha_beta_search(
             depth += 1;
         } else {
             draw_table.remove_board_from_draw_table(board);
-            return quiesce(board, alpha, beta, search_info, zobrist_hasher);
+            return quiesce(
+                start,
+                time_to_move_ms,
+                board,
+                alpha,
+                beta,
+                search_info,
+                zobrist_hasher,
+            );
         }
     }
 
